@@ -104,6 +104,45 @@ var hidden = []string{
 	`async function AF%[1]d() {} class U%[1]d extends AF%[1]d {}`,  // heritage is a bound non-constructible → TypeError (known finding)
 }
 
+// Composed coercions: every position that coerces its operand (template hole, string/number
+// operators, computed keys) × every "transparent" wrapper through which the logging object S reaches
+// that position while each sub-expression stays side-effect free and the static type of the wrapper is
+// only approximately known (conditionals, ??, ||, &&, comma; C is a bound boolean that is true at
+// run time). The purity analysis must not conclude "primitive" for any wrapper that can yield S.
+var coerceCtx = []string{
+	"var u%%[1]d = `${%s}`;",
+	"var u%%[1]d = `a${1}b${%s}c`;",
+	`var u%%[1]d = "" + %s;`,
+	`var u%%[1]d = %s + 1;`,
+	`var u%%[1]d = -%s;`,
+	`var u%%[1]d = %s == 1;`,
+	`var u%%[1]d = %s < 2;`,
+	`var u%%[1]d = { [%s]: 1 };`,
+	`var u%%[1]d = %s | 0;`,
+}
+
+var coerceWrap = []string{
+	`((C%[1]d ? null : 1) ?? S%[1]d)`,
+	`((C%[1]d ? void 0 : "a") ?? S%[1]d)`,
+	`(C%[1]d ? S%[1]d : 1)`,
+	`(C%[1]d ? 1 : S%[1]d)`, // decoy: yields 1
+	`(C%[1]d && S%[1]d)`,
+	`(!C%[1]d || S%[1]d)`,
+	`((C%[1]d ? null : 1) || S%[1]d)`,
+	`((C%[1]d ? 1 : null) && S%[1]d)`,
+	`(null ?? S%[1]d)`,
+	`(1, S%[1]d)`,
+	`((C%[1]d ? null : 1) ?? (C%[1]d ? S%[1]d : 2))`,
+}
+
+func init() {
+	for _, ctx := range coerceCtx {
+		for _, w := range coerceWrap {
+			hidden = append(hidden, fmt.Sprintf(ctx, w))
+		}
+	}
+}
+
 // signature of known finding C04-class-extends-non-constructible: an unused class whose heritage is an
 // identifier bound to an async function (evaluating the class throws a TypeError)
 var extendsNonConstructible = regexp.MustCompile(`async function (AF\d+)\(\) \{\} class U\d+ extends AF\d+ \{\}`)
@@ -139,6 +178,9 @@ func prelude(n int, stmt string) string {
 	}
 	if has("V") {
 		fmt.Fprintf(&sb, `var V%[1]d = { valueOf() { log("valueOf %[1]d"); return 1; } };`+"\n", n)
+	}
+	if has("C") {
+		fmt.Fprintf(&sb, `var C%[1]d = Math.random() < 2;`+"\n", n)
 	}
 	if has("I") {
 		fmt.Fprintf(&sb, `var I%[1]d = { [Symbol.iterator]() { log("iterator %[1]d"); return [1][Symbol.iterator](); } };`+"\n", n)
@@ -392,7 +434,7 @@ func libModule(tag string, ids []int, stmts []string, exported bool) string {
 }
 
 func runHidden(t *testing.T) {
-	H.Rule("hidden", fmt.Sprintf("bounded-exhaustive (sliced by seed in quick): each of %d hidden-effect statement forms (the syntactic positions the purity analysis inspects: spread getter, computed key, template hole, +/==/< coercion, in/instanceof, property reads, destructuring defaults and computed pattern keys, iterators, class static blocks / static fields / computed member names / heritage, default parameters, tagged templates, new, unbound globals, typeof guards, delete, setters, proxies, throwing literals, IIFEs, plus pure decoys) as an UNUSED top-level declaration of a library module × {plain, exported-but-unused} × tree-shaking {default,true} × format × minify; oracle: native Node trace == un-shaken bundle trace == shaken bundle trace, and the output has no free identifier that the inputs do not have; non-trivial = the shaken output is smaller than the un-shaken one and ≥2 events", len(hidden)))
+	H.Rule("hidden", fmt.Sprintf("bounded-exhaustive (sliced by seed in quick): each of %d hidden-effect statement forms (the syntactic positions the purity analysis inspects: spread getter, computed key, template hole, +/==/< coercion, in/instanceof, property reads, destructuring defaults and computed pattern keys, iterators, class static blocks / static fields / computed member names / heritage, default parameters, tagged templates, new, unbound globals, typeof guards, delete, setters, proxies, throwing literals, IIFEs, plus pure decoys; and 9 coercing positions × 11 transparent wrappers — conditional, ??, ||, &&, comma — through which a logging object reaches the position) as an UNUSED top-level declaration of a library module × {plain, exported-but-unused} × tree-shaking {default,true} × format × minify; oracle: native Node trace == un-shaken bundle trace == shaken bundle trace, and the output has no free identifier that the inputs do not have; non-trivial = the shaken output is smaller than the un-shaken one and ≥2 events", len(hidden)))
 	i := 0
 	for hi, st := range hidden {
 		for _, exported := range []bool{false, true} {
